@@ -371,6 +371,8 @@ impl LightClientProtocol {
                 // For safety, just remove the block#1.
                 if prev_last_header_number == 1 {
                     info!("rollback to block#1 since previous last header number is 1");
+                    #[cfg(nervosnetwork_ckb_light_client_verif)]
+                    crate::verif_hooks::lock_event("commit_prove_state");
                     let mut matched_blocks = self.peers.matched_blocks().write().expect("poisoned");
                     while let Some((start_number, _, _)) = self.storage.get_latest_matched_blocks()
                     {
@@ -452,6 +454,8 @@ impl LightClientProtocol {
             if let Some(fork_number) = fork_number_opt {
                 if let Some(to_number) = fork_number {
                     debug!("fork to number: {}", to_number);
+                    #[cfg(nervosnetwork_ckb_light_client_verif)]
+                    crate::verif_hooks::lock_event("commit_prove_state");
                     let mut matched_blocks = self.peers.matched_blocks().write().expect("poisoned");
                     let mut start_number_opt = None;
                     while let Some((start_number, _, _)) = self.storage.get_latest_matched_blocks()
